@@ -73,6 +73,9 @@ void nmc_enumerate(const nmc::Tier& t, const nmc::Sink& emit) {
             for (long ord = 1; ord <= 2; ord++) { emit(Case("vnorm_none", {s, {ord}, {kd}})); for (long a = -d; a < d; a++) emit(Case("vnorm", {s, {a}, {ord}, {kd}})); }
         }
         for (long a = -d; a < d; a++) { emit(Case("cumsum", {s, {a}})); emit(Case("cumprod", {s, {a}})); }
+        // the dtype argument of cumsum / cumprod: variant 0 = int8 source whose running fold leaves int8 (100s resp. 4s along the axis), dtype int32;
+        // variant 1 = int32 source, dtype float64.  The fold and the result element type must be the requested type's (seeded change m08c dropped dtype).
+        for (long a = -d; a < d; a++) for (long mul = 0; mul < 2; mul++) for (long var = 0; var < 2; var++) emit(Case("accdt", {s, {a}, {mul, var}}));
         if (d >= 2) for (long a = 0; a < d; a++) for (long b = 0; b < d; b++) if (a != b) { long n = std::max(s[(size_t)a], s[(size_t)b]); for (long off = -(n - 1); off <= n - 1; off++) emit(Case("trace", {s, {off}, {a}, {b}})); }
     });
 }
@@ -260,6 +263,26 @@ Outcome nmc_execute(const Case& c) {
         bool nontriv = s[(size_t)(ax < 0 ? ax + (long)s.size() : ax)] >= 2;
         if (mul) return verdict2(obs2(view::cumprod(a, ax)), want, nontriv);
         return verdict2(obs2(view::cumsum(a, ax)), want, nontriv);
+    }
+    if (o == "accdt") {
+        const L& s = c.a[0]; int ax = (int)c.a[1][0]; bool mul = c.a[2][0] != 0; long var = c.a[2][1];
+        long n = nmc::prod(s); long extent = s[(size_t)(ax < 0 ? ax + (long)s.size() : ax)];
+        // variant 0: values 100 (sum) / 4 (product), a 3 at flat position 0 so that positions stay distinguishable; the model folds in 64 bits and wraps to int32 as the request says
+        RArr r; r.shape = s; r.data.assign((size_t)n, var == 0 ? (mul ? 4.0 : 100.0) : 0.0);
+        if (var == 0) r.data[0] = 3; else for (long i = 0; i < n; i++) r.data[(size_t)i] = (double)(i % 3 + 1);
+        ROpt want = ref::accumulate(r, ax, [&](double x, double y) { double v = mul ? x * y : x + y; return var == 0 ? (double)(int32_t)(long long)v : v; });
+        bool nontriv = extent >= 2;
+        auto run = [&](const auto& a, auto dt, auto tag) -> Outcome {
+            using want_t = typename decltype(tag)::type;
+            auto chk = [&](const auto& v) -> Outcome {
+                using elem_t = meta::get_element_type_t<meta::remove_cvref_t<decltype(v)>>;
+                if (!std::is_same_v<elem_t, want_t>) return Outcome::bad("wrong", std::string(mul ? "cumprod" : "cumsum") + " with a dtype: the element type of the result is not the requested one (sizeof " + std::to_string(sizeof(elem_t)) + (std::is_floating_point_v<elem_t> ? ", floating" : ", integral") + ")", nontriv);
+                return verdict2(obs2(v), want, nontriv);
+            };
+            if (mul) return chk(view::cumprod(a, ax, dt)); return chk(view::cumsum(a, ax, dt));
+        };
+        if (var == 0) { auto a = make_arr<int8_t>(r); for (long i = 0; i < n; i++) a.data_[(size_t)i] = (int8_t)r.data[(size_t)i]; return run(a, nm::int32, meta::as_value_v<int32_t>); }
+        auto a = make_arr<int32_t>(r); for (long i = 0; i < n; i++) a.data_[(size_t)i] = (int32_t)r.data[(size_t)i]; return run(a, nm::float64, meta::as_value_v<double>);
     }
     if (o == "trace") {
         const L& s = c.a[0]; RArr r = source(s, ADD); auto a = make_arr<long>(r); int off = (int)c.a[1][0], a1 = (int)c.a[2][0], a2 = (int)c.a[3][0];
